@@ -317,6 +317,10 @@ def block(draw, env: Env, ret_t: str, depth: int, in_loop: bool, indent: int):
             pats = draw(st.lists(st.sampled_from([
                 "int()", "str()", "None", "1", '"a"', "A()", "[]", "[_, *_]", "(_, _)", "{}", "int() | str()",
                 "E.a", "[int(), str()]", "bool()", "list()", "tuple()", "_ if cond()",
+                # sequence patterns with the star in every position and with as many fixed
+                # positions as short tuples have elements
+                "[*_]", "[*_, _]", "[_, _, *_]", "[_, *_, _]", "[*_, _, _]", "[_]", "[_, _]", "[_, _, _]",
+                "[first, *rest]", "[*init, last]", "[a, b, *rest]", "(a, b)", "[int(), *_]", "[*_, str()]",
             ]), min_size=1, max_size=3, unique=True))
             for pat in pats:
                 lines.append(f"{pad}    case {pat}:")
